@@ -57,3 +57,9 @@ package keystore
 //@   loop#1 invariant branchKey.VerifWF() && startIndex <= i && mathint(startIndex) == mathint(nextIndex) + mathint(numAddresses) - mathint(addressGapLimit) - 1
 //@   loop#1 invariant pass ==> gapWitness(a, mathint(nextIndex) + mathint(numAddresses) - mathint(addressGapLimit) - 1, nextIndex)
 //@   at "addressInfo := make([]*unlockDeriveInfo, 0, numAddresses)" assert[C12] nextIndex != 0 && mathint(nextIndex) + mathint(numAddresses) > mathint(addressGapLimit) ==> gapWitness(a, mathint(nextIndex) + mathint(numAddresses) - mathint(addressGapLimit) - 1, nextIndex)
+
+// lookup across every managed keystore (not only the current one)
+//@ func (*KeystoreManager).GetManagedAddressByStdAddress
+//@   trusted
+//@   requires km != nil
+//@   ensures (result1 == nil) == (result0 != nil)
